@@ -534,4 +534,6 @@
 #define __TBB_PREVIEW_TASK_GROUP_EXTENSIONS 1
 #endif
 
+#include "_verif_hooks.h" // no-op macros unless ONETBB_VERIF is defined
+
 #endif // __TBB_detail__config_H
